@@ -469,6 +469,13 @@ class ConnectedRemotePeer(RemotePeer):
                                                human(block_hash)))
                 return
 
+            if block.height != coinstate_prior.block_by_hash[block.header.summary.previous_block_hash].height + 1:
+                # (checked here for every block, also for those whose in-coinstate validation is skipped during IBD:
+                # otherwise a chain could step over a checkpointed height)
+                self.local_peer.logger.info("%15s block received with height=%d is not the successor of its parent: %s"
+                                            % (self.host, block.height, human(block_hash)))
+                return
+
             try:
                 validate_block_by_itself(block, int(time()))
             except Exception as e:
